@@ -17,6 +17,9 @@ compared with the reference.  A malformed stream (truncated / corrupted valid fi
 `read_all_values_from_file` and of the constructor (`c10 readfile`, `c10 open`) — model validation, no property oracle.
 
 Every history is run with the real `_INITIAL_MMAP_SIZE` and with the module constant patched to 64 (growth is cheap to reach).
+
+Signatures: C10:reader-mismatch (read_all_values on the handle), C10:file-reader-mismatch (read_all_values_from_file),
+C10:read-value-mismatch, C10:raises (an operation or the constructor raised), C10:reader-raises (a reader raised).
 """
 import hashlib
 import itertools
@@ -594,8 +597,9 @@ def real_open(md, path, init):
     try:
         d = md.MmapedDict(path)
         items = triples_str((k, fb(v), fb(t)) for k, v, t in d.read_all_values())
-        pos = '+'.join('%s:%d' % (HX(k), p) for k, p in d._positions.items()) or '.'
-        return '%d,%d,%s,%s' % (d._used, d._capacity, items, pos)
+        pd = getattr(d, '_positions', None)      # private attributes: compared when present, '?' otherwise
+        pos = '?' if pd is None else ('+'.join('%s:%d' % (HX(k), p) for k, p in pd.items()) or '.')
+        return '%s,%s,%s,%s' % (getattr(d, '_used', '?'), getattr(d, '_capacity', '?'), items, pos)
     except Exception as e:  # noqa
         return '!' + errname(e)
     finally:
@@ -605,6 +609,11 @@ def real_open(md, path, init):
                 d.close()
             except Exception:  # noqa
                 pass
+
+
+def same_fields(model, real):
+    a, b = model.split(','), real.split(',')
+    return len(a) == len(b) and all(x == y or y == '?' for x, y in zip(a, b))
 
 
 def entry_offsets(raw):
@@ -698,7 +707,7 @@ def run_malformed(ctx, md, tmp):
                 ctx.count('malformed-outside-model')
                 continue
             ctx.count('malformed-%s-%s' % (name, m if m.startswith('!') else 'ok'))
-            if m != real:
+            if m != real and not same_fields(m, real):
                 ctx.diverge('%s on a %s file (%d bytes): model %s, implementation %s' % (
                     name, kind, len(raw), short_triples(m, 200), short_triples(real, 200)), case)
 
@@ -776,7 +785,7 @@ def replay(ctx, case):
             if rep is not None:
                 print('REPLAY model:          readfile %s ; open %s' % (short_triples(rep[0][3:]), short_triples(rep[1][3:])))
                 for m, r in ((rep[0][3:], r1), (rep[1][3:], r2)):
-                    if m != '!Timeout' and m != r:
+                    if m != '!Timeout' and m != r and not same_fields(m, r):
                         ctx.diverge('model %s, implementation %s' % (short_triples(m), short_triples(r)), c)
         else:
             init, ops = int(c['init']), c['ops']
